@@ -398,6 +398,12 @@ func (cc *connectUnaryClientConn) validateResponse(response *http.Response) *Err
 			(*connectWireError)(&serverErr),
 			json.Unmarshal,
 		); err == nil {
+			if serverErr.code == 0 {
+				// The body didn't carry a usable code (for example, because it wasn't
+				// written by a Connect server), so infer one from the HTTP status. An
+				// error must never have the zero code, which would mean success.
+				serverErr.code = connectHTTPToCode(response.StatusCode)
+			}
 			serverErr.meta = cc.responseHeader.Clone()
 			mergeHeaders(serverErr.meta, cc.responseTrailer)
 			return &serverErr
@@ -704,6 +710,11 @@ func (u *connectStreamingUnmarshaler) Unmarshal(message any) *Error {
 	}
 	u.trailer = end.Trailer
 	u.endStreamErr = (*Error)(end.Error)
+	if u.endStreamErr != nil && u.endStreamErr.code == 0 {
+		// The server sent an error without a usable code. An error must never
+		// have the zero code, which would mean success.
+		u.endStreamErr.code = CodeUnknown
+	}
 	return errSpecialEnvelope
 }
 
